@@ -254,6 +254,9 @@ func (h *DNSHandler) ProcessNBNS(host *packet.Host, ether packet.Ether, payload 
 		switch h.Type {
 		case 0x20:
 			fmt.Println("nbns unexpected name answer", h.Type)
+			if err := p.SkipAnswer(); err != nil {
+				return name, err
+			}
 
 		case 0x21:
 			r, err := p.UnknownResource()
@@ -267,12 +270,10 @@ func (h *DNSHandler) ProcessNBNS(host *packet.Host, ether packet.Ether, payload 
 				return name, nil
 			}
 		default:
-			/*
-				if err := p.SkipAnswer(); err != nil {
-					panic(err)
-				}
-			*/
 			fmt.Println("nbns : ignoring invalid header type", h.Type)
+			if err := p.SkipAnswer(); err != nil {
+				return name, err
+			}
 		}
 	}
 
